@@ -334,6 +334,8 @@ static int do_replay(const Args &A, Result &R) {
     }
     printf("  T      = %.17g K\n", iv.get_temperature());
     check_fractions(what.c_str(), o, "replay", cell_text(s, F, n, T, AHe), rep, R, st);
+    if (st.he0_above_one)
+      R.violation(st.worst_he0_key, st.worst_he0_detail, rep);
     const double Tn = iv.get_temperature();
     if (what == "temp" && !(std::isfinite(Tn) && Tn >= 500. && Tn <= 30000.))
       R.violation("C06:temp:temperature-bounds", fmt("T=%.17g", Tn), rep);
